@@ -3,7 +3,7 @@
    same formulas is measured per sampled case by kernel-checked interval certificates. *)
 From Coq Require Import Reals List Bool QArith Lra.
 From EsVerif.Common Require Import Base.
-From EsVerif.C10 Require Import Gen Model Spec Trig Forward Poly History Proofs Source.
+From EsVerif.C10 Require Import Gen Model Spec Trig Forward Poly History Proofs Source Inverse.
 Import ListNotations.
 Local Open Scope R_scope.
 
@@ -160,6 +160,31 @@ Theorem C10_same_checkers_sound :
   /\ (forall a b tol, sky_list_same a b tol = true ->
         Forall2 (fun p q => (Qabs.Qabs (snd p - snd q) <= tol /\ lon_wrap_abs (fst p - fst q) * lon_weight (snd p) <= tol)%Q) a b).
 Proof. split; [exact qlist_close_abs_sound|exact sky_list_same_sound]. Qed.
+
+(* Inverse WITHOUT root finding on a distorted header: for every fit routine, the round-trip error
+   of sky2image(find=False) o image2sky is exactly the residual of the fitted inverse polynomial the
+   object holds (TPV: CD^-1 (P_inv (P_fwd (CD d)) - CD d); SIP: P_inv (d + f(d)) - d), i.e. the
+   inverse chain itself adds nothing: "to the fitted-polynomial accuracy".  The point whose
+   intermediate coordinates are (0,0) is excluded as in C10_tan_inverse. *)
+Theorem C10_fit_roundtrip : forall fit fsolve h s x y xtol,
+  has_dist (mk_wcs h) = true -> cd_det h <> 0 ->
+  pix2inter (mk_wcs h) x y true <> (0, 0) ->
+  let w := mk_wcs h in
+  let ll := image2sky w x y true in
+  let ab := inv_coeffs fit w s in
+  snd (sky2image fit fsolve w s (fst ll) (snd ll) true false xtol) =
+  (x + fst (fit_residual w (fst ab) (snd ab) x y), y + snd (fit_residual w (fst ab) (snd ab) x y)).
+Proof. exact fit_roundtrip_lemma. Qed.
+
+Theorem C10_fit_roundtrip_exact : forall fit fsolve h s x y xtol,
+  has_dist (mk_wcs h) = true -> cd_det h <> 0 ->
+  pix2inter (mk_wcs h) x y true <> (0, 0) ->
+  let w := mk_wcs h in
+  let ab := inv_coeffs fit w s in
+  fit_residual w (fst ab) (snd ab) x y = (0, 0) ->
+  let ll := image2sky w x y true in
+  snd (sky2image fit fsolve w s (fst ll) (snd ll) true false xtol) = (x, y).
+Proof. exact fit_roundtrip_exact. Qed.
 
 (* Tie to the source: the model's rotation matrix, _rotate, CD-matrix application, the formulas of
    image2sph / sph2image and the jacobian are, expression for expression, what c10_translate.py
